@@ -51,6 +51,13 @@ def run(R, tier, seed, driver_ok):
             quads = quads.copy()
             for j in rng.choice(len(quads), size=min(len(quads), int(rng.randint(1, 3))), replace=False):
                 quads[j, 3] = quads[j, 2]
+        heavy = None
+        if rep % 6 == 0 and len(quads) >= 3:
+            # comparisons whose FIRST pair is one point (a == b): never violated, yet they carry their share of the total weight
+            quads = quads.copy()
+            heavy = rng.choice(len(quads), size=int(rng.randint(1, max(2, len(quads) // 2))), replace=False)
+            for j in heavy:
+                quads[j, 1] = quads[j, 0]
         nq = len(quads)
         prior_kind = ['identity', 'covariance', 'random', 'array'][rep % 4]
         if nq <= 3 and prior_kind == 'covariance':
@@ -59,6 +66,8 @@ def run(R, tier, seed, driver_ok):
         prior = B.dot(B.T) + 0.5 * np.eye(d) if prior_kind == 'array' else prior_kind
         wmode = ['none', 'array', 'list', 'none'][(rep // 4) % 4]
         wraw = rng.uniform(0.2, 3.0, size=nq) * (10.0 ** rng.randint(-2, 3))
+        if heavy is not None:
+            wraw[heavy] *= 20.0          # (most of the weight on the never-violated comparisons)
         weights = None if wmode == 'none' else (wraw.copy() if wmode == 'array' else wraw.tolist())
         tol = float(rng.choice([1e-3, 1e-5]))
         max_iter = int(rng.choice([5, 50, 1000]))
